@@ -24,14 +24,15 @@ RULE = ('cases: generated pragmatic problems (3-10 jobs: deliveries, pickups, se
         '1-3 vehicle types x 1-2 ids x 1-2 shifts, open and closed ends; capacity, skills, maxDistance / maxDuration / tourSize limits; '
         'additive features, each in about 1/3 of the problems and freely combined: job compatibility classes mixed with plain jobs, job '
         'groups, matrix errorCodes (asymmetric / symmetric / a location that cannot be left or entered), 2-3 capacity dimensions, skills '
-        'oneOf / noneOf; '
+        'oneOf / noneOf, vehicle reloads (small capacities + extra deliveries and shipments: several trips, shipments carried across a '
+        'reload); '
         'metric and non-metric integer matrices incl. the "cheap chain, expensive shortcut" shape) x 3 configurations each '
         '(max_generations 0-20, Parallelism none/(1,1)/(2,2), outer threads 1-2, quota firing after 0-89 polls or never). '
         'non-trivial = distinct (problem, document) whose document has a tour with >= 2 jobs or a binding constraint (an unassigned job).')
 TRUSTED = ['rendering of the JSON documents into the reduced Coq types and the rebuilding of Core activities from a reported tour '
            '(tools/props/e2e.py, Spec/Valid.v tour_acts / match_act): an activity is attributed to the job task place by location, duration and window',
            'real thread interleavings are sampled (three layouts), not enumerated']
-ASSUMPTIONS = ['problem fragment without breaks, reloads, recharges, relations (locks), tour order, job value, clustering: those '
+ASSUMPTIONS = ['problem fragment without breaks, recharges, relations (locks), tour order, job value, clustering, reload resources: those '
                'constraints are not exercised by this check', 'time-independent routing',
                'groups: checked rule = all ASSIGNED jobs of a group are in one tour (the documentation\'s "or left unassigned" is read per job)']
 
@@ -53,6 +54,24 @@ def constructed_docs(c, impl):
     return out
 
 
+def reload_bridges(c, doc, k, i):
+    """the leg arriving at flattened activity i of tour k of `doc` joins two activities between which a reload of the tour's
+    vehicle shift would fit (both of ITS legs reachable): what RouteIntervals::remove_trivial_markers leaves behind when it
+    removes a reload marker (tour.remove_activity_at, no constraint evaluated) - pure constructions do that too"""
+    try:
+        t = doc['tours'][k]
+        m = c['matrices'][0]
+        err, n = m.get('errorCodes') or [], e2e.matrix_size(m)
+        locs = [(a.get('location') or st['location'])['index'] for st in t['stops'] for a in st['activities']]
+        vt = e2e.vehicle_type_of(c, t)
+        sh = vt['shifts'][t.get('shiftIndex', 0)]
+        u, w = locs[i - 1], locs[i]
+        return any(err[u * n + r['location']['index']] <= 0 and err[r['location']['index'] * n + w] <= 0
+                   for r in sh.get('reloads') or [])
+    except Exception:  # noqa
+        return False
+
+
 def model_term(c, impl):
     """(violations of the returned document, [violations of every pure-construction document])"""
     s = _sol(impl)
@@ -69,11 +88,13 @@ def compare(c, impl, model):
     return None          # the correspondence of the evaluator model is C06's; here the Coq value is the verdict (oracle_model)
 
 
-CLASS = {'FNoTour': 'tour-not-rebuildable', 'FInfeasible': 'tour-infeasible', 'FSkills': 'skills-violated',
+CLASS = {'FNoTour': 'tour-not-rebuildable', 'FInfeasible': 'tour-infeasible', 'FCapacity': 'capacity-exceeded',
+         'FSkills': 'skills-violated',
          'FMaxDistance': 'max-distance-exceeded', 'FMaxDuration': 'max-duration-exceeded', 'FTourSize': 'tour-size-exceeded',
          'FShiftStart': 'departure-outside-shift-start', 'FEndLocation': 'wrong-end-location',
          'FCompatibility': 'compatibility-classes-mixed-in-tour', 'FGroup': 'group-split-over-tours',
-         'FUnreachable': 'unreachable-leg', 'FCapacityDim': 'capacity-exceeded-in-extra-dimension'}
+         'FUnreachable': 'unreachable-leg', 'FCapacityDim': 'capacity-exceeded-in-extra-dimension',
+         'FOrder': 'task-order-violated'}
 
 
 def oracle(c, impl):
@@ -98,14 +119,19 @@ def oracle_model(c, impl, model):
     docs = constructed_docs(c, impl)
     cons_bad = False
     if cons is not None:
-        for (method, _), vs in zip(docs, cons):
+        for (method, doc), vs in zip(docs, cons):
             for t in e2e.coq_viols(vs, 'F'):
-                cons_bad = cons_bad or t[0] == 'FUnreachable'
-                out.append({'class': 'construction:' + CLASS.get(t[0], t[0]),
+                cls = 'construction:' + CLASS.get(t[0], t[0])
+                if t[0] == 'FUnreachable' and reload_bridges(c, doc, t[1], t[2]):
+                    # not removal-free after all: a reload marker that became trivial was removed between the two ends
+                    cls = 'unreachable-leg-where-a-removed-reload-marker-fits'
+                else:
+                    cons_bad = cons_bad or t[0] == 'FUnreachable'
+                out.append({'class': cls,
                             'what': 'pure construction (%s, insertions only) violates %s %s' % (method, t[0], list(t[1:]))})
     else:
         # no Coq verdict on the construction documents at hand (caller evaluated valid_b on the returned one only): python twin
-        cons = [[('FUnreachable',) + x for x in e2e.unreachable_legs(c, d)] for _, d in docs]
+        cons = [[('FUnreachable',) + x for x in e2e.unreachable_legs(c, d) if not reload_bridges(c, d, x[0], x[1])] for _, d in docs]
         cons_bad = any(cons)
     for t in e2e.coq_viols(main, 'F'):
         name, arg = t[0], (t[1] if len(t) > 1 else None)
@@ -169,6 +195,19 @@ def classify(c, impl):
     if s is not None and e2e.unsupported(c, s):
         labs.append('skipped-not-renderable=' + str(e2e.unsupported(c, s))[:40])
     if s is not None:
+        for t in s['tours']:
+            seq = [(a.get('type'), a.get('jobId')) for st in t['stops'] for a in st['activities']]
+            if any(k == 'reload' for k, _ in seq):
+                labs.append('tour-with-reload')
+                ivl, where = 0, {}
+                for k, j in seq:
+                    if k == 'reload':
+                        ivl += 1
+                    elif k in ('pickup', 'delivery'):
+                        where.setdefault(j, set()).add(ivl)
+                if any(len(v) > 1 for v in where.values()):
+                    labs.append('shipment-carried-across-reload')
+    if s is not None:
         jobs = {j['id']: j for j in c['problem']['plan']['jobs']}
         for t in s['tours']:
             ids = [a['jobId'] for st in t['stops'] for a in st['activities'] if a.get('jobId') in jobs]
@@ -192,8 +231,11 @@ MANIFEST_TEXT = ('Machine-checked proof (Coq, no axioms) over the executable mod
                  'limits / shift start / end location / compatibility / group / reachability / capacity-in-every-dimension checkers (each '
                  'proved sound and complete for its declarative statement), is evaluated inside Coq on every tour of every solution document '
                  'the real solver returns for generated problems under a matrix of configurations (generations, thread-pool layouts, quota '
-                 'firing points). Reachability: a gated insertion keeps every leg reachable (theorem), a removal does not (witness).')
+                 'firing points). Reachability: a gated insertion keeps every leg reachable (theorem), a removal does not (witness). Capacity is '
+                 'checked per reload interval (static deliveries on board from the interval start, static pickups until its end, shipments carried '
+                 'across the reload): checker proved sound and complete for the declarative statement, and equal to the single-interval '
+                 'simulation of the step theorems for tours without reloads.')
 MANIFEST_NOTE = ('Trusted: Coq kernel + vm_compute; JSON->Gallina rendering and the rebuilding of activities from the document; harness. '
-                 'The tie between the evaluator model and the code is the C06 correspondence (run by `./check C06`). Not covered: breaks, reloads, '
-                 'recharge, relations/locks, tour order, job value, clustering, time-dependent routing; real interleavings only sampled.')
+                 'The tie between the evaluator model and the code is the C06 correspondence (run by `./check C06`). Not covered: breaks, '
+                 'recharge, relations/locks, tour order, job value, clustering, time-dependent routing, reload resources; real interleavings only sampled.')
 MANIFEST_TECHNIQUE = 'Coq proof (feasibility invariant over insertion/removal histories) + verified feasibility checker run on real solver output'
